@@ -13,6 +13,7 @@ import Drv.RateConv
 import Drv.Injector
 import Drv.Bist
 import Drv.Adapter
+import Drv.DramFifo
 open DrvUtil
 
 def main (args : List String) : IO UInt32 := do
@@ -31,6 +32,9 @@ def main (args : List String) : IO UInt32 := do
   | ["addown"] => foldLines i o none drvAdDown; return 0
   | ["adup"] => foldLines i o none drvAdUp; return 0
   | ["adwitness"] => mapLines i o drvAdWitness; return 0
+  | ["dramfifo"] => foldLines i o none drvDramFifo; return 0
+  | ["fifomon"] => foldLines i o none drvFifoMon; return 0
+  | ["fifowitness"] => mapLines i o drvFifoWitness; return 0
   | ["injector"] => foldLines i o none drvInjector; return 0
   | ["ratemon"] => foldLines i o none drvRateMon; return 0
   | ["rateconv"] => foldLines i o none drvRateConv; return 0
